@@ -83,12 +83,27 @@ def impl(t, case):
             out.append([b.addr(ti.node), b.addr(ti.parent), ti.field.name, None if ti.findex is None else Con("Some", ti.findex)])
         return out
 
-    return Con("Trav",
+    res = Con("Trav",
                stream(root.dfs()), stream(root.dfs(bottom_up=True)), stream(root.bfs()),
                stream(root.dfs(prune=prune, filter=filt)), stream(root.dfs(prune=prune, filter=filt, bottom_up=True)),
                stream(root.bfs(prune=prune, filter=filt)),
                [b.addr(n) for n in root.gather(classes if len(classes) > 1 else classes[0], exact_type=exact, extra_filter=filt, prune=prune)],
                [b.addr(n) for n in root.gather(classes, exact_type=not exact)])
+    # implementation-only probe (ids are unique among REGISTERED nodes only): the walked tree is detached but kept alive, an
+    # equal tree is built - it is issued the same ids - and walked: every position it yields must hold ITS objects
+    # (seeded change C05-12: child lists memoised per node id)
+    root.detach()
+    if True:
+        b2 = Built(u, mk_origin)
+        root2 = b2.build(t.args[1])
+        mine = {id(o) for o in b2.objs.values()}
+        for name, it in (("dfs", root2.dfs()), ("dfs(bottom_up)", root2.dfs(bottom_up=True)), ("bfs", root2.bfs())):
+            for ti in it:
+                v = getattr(ti.parent, ti.field.name)
+                got = v if ti.findex is None else v[ti.findex]
+                if got is not ti.node or id(ti.node) not in mine or id(ti.parent) not in mine:
+                    return Con("RebuiltTreeYieldsForeignNodes", name)
+    return res
 
 
 CLAUSES = ["dfs", "dfs(bottom_up)", "bfs", "dfs(prune,filter)", "dfs(prune,filter,bottom_up)", "bfs(prune,filter)", "gather", "gather(exactness flipped)"]
